@@ -44,6 +44,15 @@ def gen_cases(tier, seed):
 
 
 FIXED_FINITE = [
+    {  # an operand that is an expression or a small constant
+        "name": "fin_full_union_primitive",
+        "abstracts": [{"name": "Expr", "parent": None, "style": "abc"}],
+        "prods": [
+            {"name": "Leaf", "parent": "Expr", "fields": []},
+            {"name": "Add", "parent": "Expr", "fields": [["left", ["ref", "Expr"]], ["right", ["union", ["ref", "Expr"], ["ann", ["int"], ["IntRange", 0, 1]]]]]},
+        ],
+        "start": "Expr",
+    },
     {  # every abstract type is recursive, but G's trees have odd depths only (G -> GLit | GW(H), H -> HB(G)): a production
         # that is 'recursive and shallow enough' cannot always be filled to exactly the remaining depth
         "name": "fin_full_gap",
@@ -208,6 +217,24 @@ def full_eligible(desc, model=None):
     return kind
 
 
+def _union_with_a_node_free_member(desc):
+    """A union field offering a class next to a value that holds no node (a number, a refined number, a bool)."""
+
+    def walk(t):
+        if isinstance(t, list) and t and isinstance(t[0], str):
+            if t[0] == "union":
+                kinds = {"ref" if _has_ref(m) else "free" for m in t[1:]}
+                if kinds == {"ref", "free"}:
+                    return True
+            return any(walk(x) for x in t[1:])
+        return False
+
+    def _has_ref(t):
+        return isinstance(t, list) and bool(t) and (t[0] == "ref" or any(_has_ref(x) for x in t[1:] if isinstance(x, list)))
+
+    return any(walk(t) for p in desc["prods"] for _, t in p["fields"])
+
+
 def leaves_at(model, v, d, depth=1):
     """True iff every leaf node (a node without node children) sits at depth exactly d."""
     kids = []
@@ -328,6 +355,8 @@ def one_space(case, rec, built, g, model, d, frontier):
         sfx = "" if kind == "exact" else ":grammar-whose-types-skip-depths"
         if "'union', ['ann', ['list'" in str(desc) or "'union', ['list'" in str(desc) or "'union', ['tuple'" in str(desc):
             sfx += ":union-with-a-list-or-tuple-member"
+        if _union_with_a_node_free_member(desc):
+            sfx += ":union-with-a-node-free-member"  # keep this suffix LAST (known_findings.json matches on it)
         full = {t for t, (prog, _) in reach.items() if True}
         expected = set()
         # the full language: language members whose leaf nodes all sit at depth d (decided on reached programs and,
